@@ -46,6 +46,13 @@ pub fn gen(rng: &mut Prng) -> Cfg {
         ("medium", 50, Some(0), rng.range(48, 56))
     } else if roll < 14 {
         ("reject_when_full", *rng.pick(&[1usize, 2, 3]), Some(0), rng.range(2, 10))
+    } else if roll < 17 {
+        // a preset customised afterwards: the later setting must win
+        ("small+wait", 10usize, Some(*rng.pick(&[5u64, 20])), rng.range(11, 16))
+    } else if roll < 20 {
+        ("reject_then_wait", *rng.pick(&[1usize, 2]), Some(*rng.pick(&[5u64, 10, 30])), rng.range(3, 10))
+    } else if roll < 22 {
+        ("wait_then_reject", *rng.pick(&[1usize, 2]), Some(0), rng.range(3, 10))
     } else {
         let n = *rng.pick(&[1usize, 1, 2, 2, 3, 5]);
         let w = *rng.pick(&[None, None, Some(0u64), Some(1), Some(5), Some(10), Some(20), Some(30)]);
@@ -96,6 +103,9 @@ fn build_layer(cfg: &Cfg) -> BulkheadLayer {
         "small" => BulkheadLayer::small().build(),
         "medium" => BulkheadLayer::medium().build(),
         "reject_when_full" => BulkheadLayer::builder().max_concurrent_calls(cfg.n).reject_when_full().build(),
+        "small+wait" => BulkheadLayer::small().max_wait_duration(Duration::from_millis(cfg.max_wait_ms.unwrap())).build(),
+        "reject_then_wait" => BulkheadLayer::builder().max_concurrent_calls(cfg.n).reject_when_full().max_wait_duration(Duration::from_millis(cfg.max_wait_ms.unwrap())).build(),
+        "wait_then_reject" => BulkheadLayer::builder().max_concurrent_calls(cfg.n).max_wait_duration(Duration::from_millis(25)).reject_when_full().build(),
         _ => {
             let mut b = BulkheadLayer::builder().max_concurrent_calls(cfg.n);
             if let Some(ms) = cfg.max_wait_ms {
